@@ -251,6 +251,45 @@ theorem alloc_dealloc_live {E sz al p} {s s' : St} {live : List Block} {o : Outc
     · exact Or.inl h0
     · exact Or.inr h0
 
+/-- chunks are never lost or resized by allocation / deallocation: every chunk of `a` is still a
+chunk of `a'` (with possibly another finger) -/
+def Persist (a a' : Arena) : Prop :=
+  a'.M = a.M ∧ ∀ c ∈ a.chunks, ∃ c' ∈ a'.chunks, c'.data = c.data ∧ c'.size = c.size
+
+theorem Persist.refl (a : Arena) : Persist a a := ⟨rfl, fun c hc => ⟨c, hc, rfl, rfl⟩⟩
+theorem Persist.trans {a b c : Arena} (h1 : Persist a b) (h2 : Persist b c) : Persist a c := by
+  refine ⟨by rw [h2.1, h1.1], ?_⟩
+  intro x hx
+  obtain ⟨y, hy, e1, e2⟩ := h1.2 x hx
+  obtain ⟨z, hz, f1, f2⟩ := h2.2 y hy
+  exact ⟨z, hz, by rw [f1, e1], by rw [f2, e2]⟩
+theorem Persist.of_eq {a b : Arena} (h : b = a) : Persist a b := by subst h; exact Persist.refl _
+
+theorem AllocShape.persist {E a a' p sz} (hm : a'.M = a.M) (sh : AllocShape E a a' p sz) : Persist a a' := by
+  refine ⟨hm, ?_⟩
+  intro x hx
+  rcases sh with ⟨_, ha, _, _⟩ | ⟨c, cs, hc, hc', _, _⟩ | ⟨c, hc', _⟩
+  · rw [ha]; exact ⟨x, hx, rfl, rfl⟩
+  · rw [hc] at hx
+    simp only [List.mem_cons] at hx
+    rcases hx with rfl | hx
+    · exact ⟨{ x with ptr := p }, by rw [hc']; exact List.mem_cons_self, rfl, rfl⟩
+    · exact ⟨x, by rw [hc']; exact List.mem_cons_of_mem _ hx, rfl, rfl⟩
+  · exact ⟨x, by rw [hc']; exact List.mem_cons_of_mem _ hx, rfl, rfl⟩
+
+theorem dealloc_persist {E p sz} (s : St) (hE : EnvOK E) (h : ArenaWF E s.a)
+    (hblk : (s.a.cur E).ptr = p → p + sz ≤ (s.a.cur E).footer) : Persist s.a (dealloc E p sz s).1.a := by
+  obtain ⟨_, _, _, _, hm, _, h7⟩ := dealloc_spec s hE h hblk
+  refine ⟨hm, ?_⟩
+  intro x hx
+  rcases h7 with he | ⟨c, cs, r, hc, _, _, _, hc'⟩
+  · rw [he]; exact ⟨x, hx, rfl, rfl⟩
+  · rw [hc] at hx
+    simp only [List.mem_cons] at hx
+    rcases hx with rfl | hx
+    · exact ⟨{ x with ptr := r }, by rw [hc']; exact List.mem_cons_self, rfl, rfl⟩
+    · exact ⟨x, by rw [hc']; exact List.mem_cons_of_mem _ hx, rfl, rfl⟩
+
 def InnerValid : Inner → Prop
   | .keep s a => IsPow2 a ∧ s + a ≤ 2 ^ 63
   | .release s a => IsPow2 a ∧ s + a ≤ 2 ^ 63
@@ -261,7 +300,8 @@ theorem runInner_live {E} (hE : EnvOK E) : ∀ (inner : List Inner) (s : St) (li
     (∀ w, (runInner E inner s acc).2 ≠ .bad w) ∧ (runInner E inner s acc).2 ≠ .err ∧
     (runInner E inner s acc).2 ≠ .panic ∧
     (∀ ps, (runInner E inner s acc).2 = .ok ps → ∃ ps', ps = acc ++ ps' ∧
-      LiveInv E ⟨(runInner E inner s acc).1, live ++ keptBlocks inner ps'⟩) := by
+      LiveInv E ⟨(runInner E inner s acc).1, live ++ keptBlocks inner ps'⟩ ∧
+      Persist s.a (runInner E inner s acc).1.a) := by
   intro inner
   induction inner with
   | nil =>
@@ -270,7 +310,7 @@ theorem runInner_live {E} (hE : EnvOK E) : ∀ (inner : List Inner) (s : St) (li
     refine ⟨(by intro w; simp), (by simp), (by simp), ?_⟩
     intro ps hps
     simp only [Outcome.ok.injEq] at hps
-    exact ⟨[], by simp [hps], by simpa [keptBlocks] using inv⟩
+    exact ⟨[], by simp [hps], by simpa [keptBlocks] using inv, Persist.refl _⟩
   | cons i rest ih =>
     intro s live acc inv hval
     have hvi := hval i List.mem_cons_self
@@ -292,8 +332,9 @@ theorem runInner_live {E} (hE : EnvOK E) : ∀ (inner : List Inner) (s : St) (li
           obtain ⟨b1, b2, b3, b4⟩ := ih s1 (live ++ [⟨p, sz⟩]) (acc ++ [p]) inv1 hvr
           refine ⟨b1, b2, b3, ?_⟩
           intro ps hps
-          obtain ⟨ps', hpe, hl⟩ := b4 ps hps
-          refine ⟨p :: ps', by rw [hpe]; simp, ?_⟩
+          obtain ⟨ps', hpe, hl, hpers⟩ := b4 ps hps
+          have hps1 : Persist s.a s1.a := (sp.ok p rfl).2.2.2.2.1.persist sp.m_eq
+          refine ⟨p :: ps', by rw [hpe]; simp, ?_, hps1.trans hpers⟩
           have hp0 : p ≠ 0 := by omega
           simpa [keptBlocks, hp0, List.append_assoc] using hl
         | err =>
@@ -302,8 +343,9 @@ theorem runInner_live {E} (hE : EnvOK E) : ∀ (inner : List Inner) (s : St) (li
           obtain ⟨b1, b2, b3, b4⟩ := ih s1 live (acc ++ [0]) inv1 hvr
           refine ⟨b1, b2, b3, ?_⟩
           intro ps hps
-          obtain ⟨ps', hpe, hl⟩ := b4 ps hps
-          exact ⟨0 :: ps', by rw [hpe]; simp, by simpa [keptBlocks] using hl⟩
+          obtain ⟨ps', hpe, hl, hpers⟩ := b4 ps hps
+          exact ⟨0 :: ps', by rw [hpe]; simp, by simpa [keptBlocks] using hl,
+            (Persist.of_eq (sp.fail (Or.inl rfl)).1).trans hpers⟩
         | panic => exact absurd rfl hnp
         | bad w => exact absurd rfl (sp.nobad w)
         | envBad =>
@@ -333,16 +375,23 @@ theorem runInner_live {E} (hE : EnvOK E) : ∀ (inner : List Inner) (s : St) (li
             obtain ⟨b1, b2, b3, b4⟩ := ih s2 live (acc ++ [p]) inv2 hvr
             refine ⟨b1, b2, b3, ?_⟩
             intro ps hps
-            obtain ⟨ps', hpe, hl⟩ := b4 ps hps
-            exact ⟨p :: ps', by rw [hpe]; simp, by simpa [keptBlocks] using hl⟩
+            obtain ⟨ps', hpe, hl, hpers⟩ := b4 ps hps
+            have hps1 : Persist s.a s1.a := (sp.ok p rfl).2.2.2.2.1.persist sp.m_eq
+            have inv1 := allocPost_live hE inv sp rfl
+            have hbk := blockOK_of_inv (inv1.blocks ⟨p, sz⟩ (by simp)) hA (sp.ok p rfl).2.1
+            have hps2 : Persist s1.a s2.a := by
+              have := dealloc_persist (E := E) (p := p) (sz := sz) s1 hE inv1.wf (cur_block hE inv1.wf hbk)
+              rw [hdd] at this; exact this
+            exact ⟨p :: ps', by rw [hpe]; simp, by simpa [keptBlocks] using hl, (hps1.trans hps2).trans hpers⟩
         | err =>
           simp only [bindO, ↓reduceIte]
           have inv1 : LiveInv E ⟨s1, live⟩ := allocPost_fail_live inv sp (Or.inl rfl)
           obtain ⟨b1, b2, b3, b4⟩ := ih s1 live (acc ++ [0]) inv1 hvr
           refine ⟨b1, b2, b3, ?_⟩
           intro ps hps
-          obtain ⟨ps', hpe, hl⟩ := b4 ps hps
-          exact ⟨0 :: ps', by rw [hpe]; simp, by simpa [keptBlocks] using hl⟩
+          obtain ⟨ps', hpe, hl, hpers⟩ := b4 ps hps
+          exact ⟨0 :: ps', by rw [hpe]; simp, by simpa [keptBlocks] using hl,
+            (Persist.of_eq (sp.fail (Or.inl rfl)).1).trans hpers⟩
         | panic => exact absurd rfl hnp
         | bad w => exact absurd rfl (sp.nobad w)
         | envBad =>
@@ -558,7 +607,7 @@ theorem sysStep_live {E} (hE : EnvOK E) (y : Sys) (op : Op) (inv : LiveInv E y) 
             simp only at b1 b2 b3 b4
             cases o2 with
             | ok ps =>
-              obtain ⟨ps', hpe, hl⟩ := b4 ps rfl
+              obtain ⟨ps', hpe, hl, _⟩ := b4 ps rfl
               simp only [List.nil_append] at hpe
               subst hpe
               simp only [↓reduceIte, Res.ofOutcome, id, liveAfter]
